@@ -35,12 +35,19 @@ pub fn work_root() -> PathBuf {
     link
 }
 
+/// Path of this executable; survives the binary being replaced by a rebuild while a
+/// check is running (the kernel then reports "<path> (deleted)").
+pub fn self_exe() -> PathBuf {
+    let p = std::env::current_exe().unwrap_or_else(|_| PathBuf::from("/verif/target/debug/verif"));
+    let s = p.to_string_lossy().into_owned();
+    PathBuf::from(s.strip_suffix(" (deleted)").unwrap_or(&s).to_string())
+}
+
 /// Run one lifetime in a fresh child process.
 pub fn run_child(job: &Job, job_file: &Path) -> Result<JobResult, String> {
     std::fs::create_dir_all(job_file.parent().unwrap()).map_err(|e| e.to_string())?;
     std::fs::write(job_file, serde_json::to_string(job).unwrap()).map_err(|e| e.to_string())?;
-    let exe = std::env::current_exe().map_err(|e| e.to_string())?;
-    let out = std::process::Command::new(exe)
+    let out = std::process::Command::new(self_exe())
         .arg("job")
         .arg(job_file)
         .env_remove("SNELDB_CONFIG")
